@@ -9,7 +9,7 @@ CHECKS = {
     "C17": dict(
         category="model_checking", design_ref="DESIGN.md §7 C17",
         technique="TLA+ bit-set model of the shift/or/mask network (constants extracted from morton.go), TLC exhaustive on generators; TLC vectors replayed into ToZ/FromZ; records of the real code validated against the model by TLC; TLAPS proof of union-linearity of every stage (MortonProofs.tla)",
-        text="TLC checks exhaustively (17 457 generator pairs, every stage a state) that the network read out of morton.go equals bit interleaving, inverts, and commutes with the parent shift; every TLC vector is replayed through the real ToZ/FromZ, and records of the real code on random wide words (key, ok flag, union-linearity, parent, child keys, decode) are judged by the same model, which lifts the generator check to all 2^64 pairs.",
+        text="TLC checks exhaustively (17 457 generator pairs, every stage a state) that the network read out of morton.go equals bit interleaving, inverts, and commutes with the parent shift; every TLC vector is replayed through the real ToZ/FromZ, and records of the real code on random wide words (key, ok flag, MustToZ reporting, union-linearity, parent, child keys incl. parents whose children need 33 bits, decode) are judged by the same model, which lifts the generator check to all 2^64 pairs.",
         note="Trusted: Go uint is 64-bit with set-like |,&,<<,>>; the transcription of the loop bodies (bound by replay and trace records); TLC."),
 }
 
@@ -20,7 +20,7 @@ CHECKS["C02"] = dict(
     note="Trusted: TLC; synthetic dyadic grids convert exactly (asserted per coordinate); the non-collapsing-polygon sentence is decided by the Snap trace specification.")
 CHECKS["C09"] = dict(
     category="model_checking", design_ref="DESIGN.md §7 C09",
-    technique="TLA+ half-open grid predicate (Grid!InGrid/Outcome); TLC enumerates every lattice point in a 2-pixel band around all borders x vertex position x ignore flag; each vector replayed into SnapPolygon and InsertPoint on synthetic and built-in grids",
+    technique="TLA+ half-open grid predicate (Grid!InGrid/Outcome); TLC enumerates every lattice point in a 2-pixel band around all borders x vertex position x ignore flag; each vector replayed into SnapPolygon (the tile matrix alone and together with coarser ones, in either order) and InsertPoint on synthetic (incl. northing/easting documents with origin x != y) and built-in grids",
     text="Exhaustive at the border: every quarter-pixel lattice point from two pixels outside to two pixels inside each border and corner is replayed, measured from the nearest border, on synthetic grids (zero, negative and positive origin, both corner conventions, tile widths 1..256) and on NetherlandsRDNewQuad / WebMercatorQuad / NZTM2000Quad; the observed outcome (snapped / empty / OutsideGridError panic / error of InsertPoint) must equal the specified one.",
     note="Trusted: TLC; float inputs are checked to convert to the intended 1e-10 integer (else skipped and counted); 'inside implies snapped' is asserted only on grids that divide evenly.")
 
@@ -32,8 +32,8 @@ CHECKS["C01"] = dict(
     note=SNAPNOTE)
 CHECKS["C04"] = dict(
     category="model_checking", design_ref="DESIGN.md §7 C04",
-    technique="trace validation against SnapTrace.tla: vertices are centres of input-vertex pixels, edge sample points within half a pixel of the input boundary (exact closed-box clip), coverage equivalence at all pixel centres/corners farther than one pixel from the boundary",
-    text="The three clauses of the property are three TLC invariants evaluated on every recorded call at every requested level; sample locations cover the whole window plus two pixels.",
+    technique="trace validation against SnapTrace.tla: vertices are centres of input-vertex pixels, edge sample points within half a pixel of the input boundary (exact closed-box clip), coverage equivalence at all pixel centres/corners farther than one pixel from the boundary; known finding F13 keyed by the TLC-computed predicate RepeatsDirectedEdge on the routed boundary",
+    text="The three clauses of the property are three TLC invariants evaluated on every recorded call at every requested level; sample locations cover the whole window plus two pixels. Inputs include multi-turn spiral corridors thinner than a pixel (where the code fails: finding F13, suppressed only when the coverage clause fails solely at levels whose routed boundary repeats a directed edge).",
     note=SNAPNOTE + " Edge clause sampled at end points and mid points of output edges.")
 CHECKS["C05"] = dict(
     category="model_checking", design_ref="DESIGN.md §7 C05",
@@ -42,7 +42,7 @@ CHECKS["C05"] = dict(
     note=SNAPNOTE + " Real-grid float effects (finding F4) are checked by the real-grid part of the check.")
 CHECKS["C06"] = dict(
     category="model_checking", design_ref="DESIGN.md §7 C06",
-    technique="trace validation against SnapTrace.tla (a panic is a record with out # ok, i.e. no enabled behaviour; time bound as invariant) on adversarially repetitive vertex sequences",
+    technique="trace validation against SnapTrace.tla (a panic is a record with out # ok, i.e. no enabled behaviour; time bound as invariant) on adversarially repetitive vertex sequences; Kmp.tla: kmpTable / kmpSearch / kmpSearchAll as a TLA+ state machine (index safety, per-iteration progress, relation to the true search) with every TLC vector replayed into the real kmpSearchAll (KmpTrace.tla); Chains.tla label sequences through the real kmpDeduplicate",
     text="Thousands to 10^5 arbitrary in-grid vertex sequences from small point pools (repeated vertices, spikes, zig-zags, rings of 0-2 points, several rings), every flag combination and level set, each call under recover and timed.",
     note=SNAPNOTE + " The time bound is a loose cubic (no hang), wall clock measured by the driver.")
 CHECKS["C07"] = dict(
@@ -92,7 +92,7 @@ CHECKS["C14"] = dict(
     note="Trusted: TLC; the abstract projection (exact rationals for the cell-size ratio); composition of the two library calls as in package main, cross-checked through the binary for built-ins.")
 CHECKS["C15"] = dict(
     category="model_checking", design_ref="DESIGN.md §7 C15",
-    technique="integer TLA+ model of FromNative / ToNative / bounding box for both corner conventions checked exhaustively by TLC (TileAddr.tla); ~19000 records of the real functions on all built-in sets and matrices judged by TileAddrTrace.tla",
+    technique="integer TLA+ model of FromNative / ToNative / bounding box for both corner conventions checked exhaustively by TLC (TileAddr.tla); ~19000 records of the real functions on all built-in sets and matrices (plus synthetic northing/easting documents) judged by TileAddrTrace.tla, the expected x,y order taken from the document's own orderedAxes",
     text="Design: every matrix up to 4x3, both corner conventions, 9 origins, every tile and 9 interior points: point-in-tile finds its tile, outside finds none, bounding box spans the corners. Code: for every built-in set, every matrix without variable widths, corner/border/sampled tiles x interior points, outside points, corner positions against origin + index x tile size in x,y order.",
     note="Trusted: TLC; float tolerance 16 ulp + 1e-8 (the API rounds to 9 decimals).")
 
